@@ -129,6 +129,14 @@ func Start(t *testing.T, id string) *Run {
 	return r
 }
 
+// RepoDir is the repository the binary was built against (/repo unless an audit run says otherwise).
+func RepoDir() string {
+	if v := os.Getenv("VERIF_REPO"); v != "" {
+		return v
+	}
+	return "/repo"
+}
+
 // Thorough reports whether the thorough tier was requested.
 func (r *Run) Thorough() bool { return r.Tier == "thorough" }
 
